@@ -64,7 +64,8 @@ def main():
         dst = os.path.join(VERIF, "seeded", f"{pid}-{name}")
         os.makedirs(dst, exist_ok=True)
         for f in ("patch.diff", "demo.py"):
-            shutil.copy(os.path.join(mdir, f), dst)
+            if os.path.abspath(os.path.join(mdir, f)) != os.path.abspath(os.path.join(dst, f)):
+                shutil.copy(os.path.join(mdir, f), dst)
         meta = json.load(open(os.path.join(mdir, "meta.json")))
         meta["verification"] = {k: res[k] for k in ("demo_unchanged_rc", "demo_mutated_rc", "checks", "detected_by")}
         meta["ran"] = (f"demo on unchanged + patched scratch worktree ({wt}); checks {checks} with CPPPO_SRC={base}; "
